@@ -295,6 +295,7 @@ func runDSProperty(t *testing.T, prop string, rep *verifkit.Report, nShort, nLon
 		rep.Event("getheaders_received_by_peer", int64(s.peer.getHeaders))
 		rep.Event("block_getdata_received_by_peer", int64(len(s.peer.getDataSeq)))
 		rep.Event("block_requests_judged_on_the_wire", int64(s.wireRequests))
+		rep.Event("block_rerequests_after_abandoned_branch", int64(s.rerequests))
 		if s.maxRequested >= 10 {
 			rep.Event("scenarios_reaching_full_window", 1)
 		}
